@@ -12,7 +12,7 @@ CONSTANTS MaxMsgs,      \* publishes per behaviour
           MaxReads,     \* explicit metadata reads per behaviour
           MaxPauses,    \* PauseStream calls per behaviour
           OccSet, BatchSet, PathSet, Kinds, Pols,
-          Mut           \* "none" | "after_write" | "newest" | "batch" | "none_paused" | "neg_waives"
+          Mut           \* "none" | "after_write" | "newest" | "batch" | "none_paused" | "neg_waives" | "nack_leader_only"
 
 VARIABLES last, nReads, nPauses
 mcvars == <<vars, last, nReads, nPauses>>
@@ -108,6 +108,22 @@ MutBatch(n) ==
                 /\ ackq' = ackq \cup {b[i] : i \in 1..n}
   /\ UNCHANGED <<cfg, net, clk, known, paused>>
 
+\* (f) the INCORRECT_OFFSET answer is sent only for ack policy LEADER
+MutNackLeaderOnly(n) ==
+  /\ n = 1 /\ n <= Len(chan)
+  /\ LET b == SubSeq(chan, 1, n)
+         base == Len(log)
+         bad == cfg.occ /\ msgs[b[1]].exp # -1 /\ msgs[b[1]].exp # base
+     IN /\ chan' = Tail(chan)
+        /\ IF bad THEN /\ log' = log
+                       /\ msgs' = IF msgs[b[1]].pol = "leader"
+                                  THEN [msgs EXCEPT ![b[1]].res = "incorrect_offset"] ELSE msgs
+                       /\ ackq' = IF msgs[b[1]].pol = "leader" THEN ackq \cup {b[1]} ELSE ackq
+           ELSE /\ log' = log \o Stamped(b, base)
+                /\ msgs' = [msgs EXCEPT ![b[1]].res = "ok", ![b[1]].off = base]
+                /\ ackq' = ackq \cup {b[1]}
+  /\ UNCHANGED <<cfg, net, clk, known, paused>>
+
 \* (e) every negative expected offset waives the check (not only -1)
 MutNegWaives(n) ==
   /\ n = 1 /\ n <= Len(chan)
@@ -128,6 +144,7 @@ MCProcess(n) ==
        [] Mut = "newest" -> MutNewest(n)
        [] Mut = "batch" -> MutBatch(n)
        [] Mut = "neg_waives" -> MutNegWaives(n)
+       [] Mut = "nack_leader_only" -> MutNackLeaderOnly(n)
        [] OTHER -> DoProcess(n)
   /\ last' = [a |-> "Process", b |-> SubSeq(chan, 1, n)]
   /\ UNCHANGED <<nReads, nPauses>>
